@@ -549,7 +549,16 @@ func (vc *VC) execInstr(fr *Frame, in ssa.Instruction, st *State) {
 	switch x := in.(type) {
 	case *ssa.Alloc:
 		t := x.Type().(*types.Pointer).Elem()
-		fr.env[x] = vc.allocObj(st, t, "new."+x.Name())
+		pv := vc.allocObj(st, t, "new."+x.Name())
+		fr.env[x] = pv
+		switch x.Comment {
+		case "", "new", "complit", "slicelit", "makeslice", "varargs", "arraylit", "maplit":
+		default:
+			// a local variable's cell (x.Comment is the variable name): remember it, see havocAll
+			for _, l := range vc.objLocs(pv) {
+				vc.localCells = append(vc.localCells, [2]string{l.Comp, l.Ref})
+			}
+		}
 	case *ssa.FieldAddr:
 		base := vc.operand(fr, x.X)
 		ba := vc.addrOfPtr(base)
@@ -732,6 +741,11 @@ func (vc *VC) unop(fr *Frame, x *ssa.UnOp, st *State) {
 		if pv.Global != "" {
 			if ce, ok := vc.eng.specs.Consts[pv.Global]; ok {
 				env := vc.specEnv(fr, st, st, nil)
+				if k := strings.LastIndex(pv.Global, "."); k > 0 {
+					if gp := vc.eng.pkgByPath(pv.Global[:k]); gp != nil {
+						env.pkg = gp // the constant expression is written in the global's own package
+					}
+				}
 				v := vc.trExpr(env, ce)
 				v.Typ = x.Type()
 				v.Global = pv.Global
